@@ -179,3 +179,48 @@ def effects_obligation(prop):
 
     return Obligation("OX.E", "history independence: no module/class-level state, caches or mutable defaults behind the property's functions; "
                               "arguments owned by the caller are not modified (E10)", run, floor=1)
+
+
+def labels_obligation(prop, floor=0):
+    """cross-cutting obligation E11: pandas combines labelled operands by row label, not by row position"""
+    from sa import interp as _interp
+    from sa.report import Obligation
+
+    def run(ctx):
+        its = _interp.REGISTRY.get(id(ctx.prog), [])
+        seen = set()
+        n = 0
+        for it in its:
+            for e in it.events:
+                if e.kind != "label-align":
+                    continue
+                k = (e.fn, id(e.node))
+                if k in seen:
+                    continue
+                seen.add(k)
+                n += 1
+                ctx.count(1, {"function": e.fn, "construct": norm_text(e.node)[:80], "left labels": _labtxt(e.extra["left"]),
+                              "right labels": _labtxt(e.extra["right"])} if n <= 6 else None)
+                if not e.extra["same"]:
+                    try:
+                        m, _ = ctx.prog.func(e.fn)
+                    except Exception:  # noqa
+                        m = None
+                    what = {"arith": "an arithmetic operation", "store": "a column assignment"}.get(e.name, e.name)
+                    ctx.finding(e.fn, e.node, f"{what} combines two pandas objects whose row labels differ ({_labtxt(e.extra['left'])} vs "
+                                f"{_labtxt(e.extra['right'])}): pandas pairs the rows by label, not by position, so for a table whose index is not "
+                                "0..n-1 (after a selection, a sort, a concat) values land in the wrong rows or become NaN", e.node, m)
+        ctx.count(len(its), None)
+
+    return Obligation("OX.L", "row-label alignment: arithmetic and column assignment between labelled tables/columns pair the same particles "
+                              "(E11, over every function interpreted for this property)", run, floor=floor)
+
+
+def _labtxt(k):
+    if k is None:
+        return "unlabelled"
+    if k[0] == "pos":
+        return "fresh 0..n-1 index"
+    if k[0] == "tok":
+        return "the index the table came with (not known to be 0..n-1)"
+    return k[0]
